@@ -95,8 +95,12 @@ extern "C" {
     fn __CPROVER_uninterpreted_acos(x: f64) -> f64;
     fn __CPROVER_uninterpreted_asinf(x: f32) -> f32;
     fn __CPROVER_uninterpreted_asin(x: f64) -> f64;
-    fn __CPROVER_uninterpreted_remf(x: f32, y: f32) -> f32;
-    fn __CPROVER_uninterpreted_rem(x: f64, y: f64) -> f64;
+    fn __CPROVER_uninterpreted_sh_fmaf(x: f32, y: f32, z: f32) -> f32;
+    fn __CPROVER_uninterpreted_sh_fma(x: f64, y: f64, z: f64) -> f64;
+    fn __CPROVER_uninterpreted_sh_div_euclidf(x: f32, y: f32) -> f32;
+    fn __CPROVER_uninterpreted_sh_div_euclid(x: f64, y: f64) -> f64;
+    fn __CPROVER_uninterpreted_sh_rem_euclidf(x: f32, y: f32) -> f32;
+    fn __CPROVER_uninterpreted_sh_rem_euclid(x: f64, y: f64) -> f64;
 }
 pub mod uf {
     #[cfg(kani)]
@@ -127,6 +131,14 @@ pub mod uf {
     uf2!(atan2, __CPROVER_uninterpreted_atan2, f64, |y, x| y.atan2(x));
     uf2!(powf, __CPROVER_uninterpreted_powf, f32, |x, y| x.powf(y));
     uf2!(pow, __CPROVER_uninterpreted_pow, f64, |x, y| x.powf(y));
+    uf2!(div_euclidf, __CPROVER_uninterpreted_sh_div_euclidf, f32, |x, y| x.div_euclid(y));
+    uf2!(div_euclid, __CPROVER_uninterpreted_sh_div_euclid, f64, |x, y| x.div_euclid(y));
+    uf2!(rem_euclidf, __CPROVER_uninterpreted_sh_rem_euclidf, f32, |x, y| x.rem_euclid(y));
+    uf2!(rem_euclid, __CPROVER_uninterpreted_sh_rem_euclid, f64, |x, y| x.rem_euclid(y));
+    #[cfg(kani)] #[inline(never)] pub fn fmaf(x: f32, y: f32, z: f32) -> f32 { unsafe { __CPROVER_uninterpreted_sh_fmaf(x, y, z) } }
+    #[cfg(not(kani))] pub fn fmaf(x: f32, y: f32, z: f32) -> f32 { x.mul_add(y, z) }
+    #[cfg(kani)] #[inline(never)] pub fn fma(x: f64, y: f64, z: f64) -> f64 { unsafe { __CPROVER_uninterpreted_sh_fma(x, y, z) } }
+    #[cfg(not(kani))] pub fn fma(x: f64, y: f64, z: f64) -> f64 { x.mul_add(y, z) }
     pub fn sin_cosf(x: f32) -> (f32, f32) { (sinf(x), cosf(x)) }
     pub fn sin_cos(x: f64) -> (f64, f64) { (sin(x), cos(x)) }
 }
@@ -221,6 +233,12 @@ pub mod shim {
     pub fn exp64(x: f64) -> f64 { uf::exp(x) }
     pub fn powf32(x: f32, y: f32) -> f32 { uf::powf(x, y) }
     pub fn powf64(x: f64, y: f64) -> f64 { uf::pow(x, y) }
+    pub fn mul_add32(x: f32, y: f32, z: f32) -> f32 { uf::fmaf(x, y, z) }
+    pub fn mul_add64(x: f64, y: f64, z: f64) -> f64 { uf::fma(x, y, z) }
+    pub fn div_euclid32(x: f32, y: f32) -> f32 { uf::div_euclidf(x, y) }
+    pub fn div_euclid64(x: f64, y: f64) -> f64 { uf::div_euclid(x, y) }
+    pub fn rem_euclid32(x: f32, y: f32) -> f32 { uf::rem_euclidf(x, y) }
+    pub fn rem_euclid64(x: f64, y: f64) -> f64 { uf::rem_euclid(x, y) }
     pub fn acos_approx32(x: f32) -> f32 { uf::acosf(x) }
     pub fn acos_approx64(x: f64) -> f64 { uf::acos(x) }
 }
